@@ -35,10 +35,27 @@ struct prop_leaf : vf::probe_raw
 {
     using vf::probe_raw::probe_raw;
 };
+// a user's allocator with shared semantics: copies refer to the same state, operator== says whether two copies do
+struct shared_leaf : vf::probe_raw
+{
+    using vf::probe_raw::probe_raw;
+    friend bool operator==(const shared_leaf& a, const shared_leaf& b) noexcept
+    {
+        return a.s == b.s;
+    }
+    friend bool operator!=(const shared_leaf& a, const shared_leaf& b) noexcept
+    {
+        return !(a == b);
+    }
+};
 namespace foonathan
 {
     namespace memory
     {
+        template <>
+        struct is_shared_allocator<shared_leaf> : std::true_type
+        {
+        };
         template <int V>
         struct propagation_traits<prop_leaf<V>>
         {
@@ -513,6 +530,15 @@ namespace
         }
     };
 
+    struct shared_leaves
+    {
+        static constexpr const char* suffix = "-shared";
+        shared_leaf L1, L2;
+        shared_leaves(probe_handle h1, probe_handle h2) : L1(h1), L2(h2) {}
+    };
+    template <class T>
+    using shared_alloc = std_allocator<T, shared_leaf>;
+
     template <int V>
     struct prop_leaves
     {
@@ -902,6 +928,12 @@ void run_programs_erased(const vf::args& a)
         using K0 = kinds<prop_alloc_of<0>::type>;
         program_kind<K0::list_k, false, prop_leaves<0>>(a);
         program_kind<K0::vector_k, false, prop_leaves<0>>(a);
+    }
+    {
+        using KS2 = kinds<shared_alloc>;
+        program_kind<KS2::list_k, false, shared_leaves>(a);
+        program_kind<KS2::vector_k, false, shared_leaves>(a);
+        program_kind<KS2::umap_k, false, shared_leaves>(a);
     }
     using KC = kinds<comp_alloc>;
     program_kind<KC::list_k, false, composed_leaves>(a);
